@@ -221,6 +221,48 @@ func s7() {
 	vs.Event(fmt.Sprintf("helper-got:%d", len(got)))
 }
 
+// S8: the out helper cannot be started while another thread sends on the
+// (closed) port: Open reports the error, Send reports ErrPortClosed, nobody blocks.
+func s8() {
+	script(nil, 1)
+	drv, _ := midicatdrv.New()
+	outs, _ := drv.Outs()
+	out := outs[0]
+	done := vs.NewChan[int](1)
+	vs.GoNamed("sender", func() {
+		err := out.Send([]byte{0x90, 1, 2})
+		vs.Event("send:" + errStr(err))
+		done.Send(1)
+	})
+	vs.Event("open:" + errStr(out.Open()))
+	done.Recv()
+	vs.Event("open:" + errStr(out.Open()))
+	vs.Event(fmt.Sprintf("isopen:%v", out.IsOpen()))
+	vs.Event("close:" + errStr(out.Close()))
+}
+
+// S9: a stop function called once more after the port was closed and opened
+// again (two deferred stops around a reconnect) returns.
+func s9() {
+	script(lines, 0)
+	in := newIn()
+	vs.Event("open:" + errStr(in.Open()))
+	stop1, err := in.Listen(listener(1, nil), drivers.ListenConfig{})
+	vs.Event("listen1:" + errStr(err))
+	if err != nil {
+		return
+	}
+	stop1()
+	vs.Event("stop1-returned")
+	vs.Event("close:" + errStr(in.Close()))
+	vs.Event("open:" + errStr(in.Open()))
+	stop1()
+	vs.Event("stop1-again-returned")
+	vs.Event("close:" + errStr(in.Close()))
+	stop1()
+	vs.Event("stop1-after-close-returned")
+}
+
 func eventsOf(e *vs.Exec, prefix string) []string {
 	var out []string
 	for _, ev := range e.Events {
@@ -354,6 +396,15 @@ func scenarios() []scenario {
 				}
 			}
 			return "", ""
+		}},
+		{"S8-out-start-fails-while-sending", s8, func(e *vs.Exec) (string, string) {
+			if s, w := expectSeq(e, []string{"open:", "isopen:", "close:"}, []string{"open:error", "open:nil", "isopen:true", "close:nil"}); s != "" {
+				return s, w
+			}
+			return expectSeq(e, []string{"send:"}, []string{"send:ErrPortClosed"})
+		}},
+		{"S9-stale-stop-after-reopen", s9, func(e *vs.Exec) (string, string) {
+			return expectSeq(e, []string{"open:", "listen1:", "close:", "stop1-"}, []string{"open:nil", "listen1:nil", "stop1-returned", "close:nil", "open:nil", "stop1-again-returned", "close:nil", "stop1-after-close-returned"})
 		}},
 		{"S6-driver-close", s6, func(e *vs.Exec) (string, string) {
 			if s, w := deliveryRules(e); s != "" {
